@@ -17,7 +17,9 @@ CONSTANTS Conns,        \* connection incarnations (each id connects at most onc
           Kinds,        \* enabled client message kinds
           Faults,       \* subset of {"ends", "dropped", "sdc", "sdb", "sdi"}
           WrongKinds,   \* broker-to-client kinds a client may (wrongly) send
-          MsgBudget     \* total number of client messages per behaviour (state constraint)
+          MsgBudget,    \* number of free client messages per behaviour
+          ScriptSel,    \* name of the deterministic prefix of inputs ("none", "svc", "svc2", "chan", "lst")
+          V0, V1        \* versions of the scripted connections 0 and 1
 
 O == INSTANCE Obs
 
@@ -37,11 +39,32 @@ vars == <<bk, inq, pc, rec, nextCookie, ctype, env, obs>>
 view == <<bk, inq, pc, nextCookie, ctype, env, obs>>
 
 NEVER == 99           \* a cookie that is never issued
+
+\* Deterministic prefixes: the environment first feeds these inputs in order (one at a time, as the
+\* queue has room), then becomes free.  They only save the model checker from re-exploring the
+\* set-up of an object with a service; cookies are issued in order 1, 2, ...
+MsgEv(c, m) == [t |-> "msg", c |-> c, m |-> m]
+Script ==
+  CASE ScriptSel = "svc" ->      \* connection 0 owns object 101 (cookie 1) with service 201 (cookie 2); connection 1 is a client
+         << [t |-> "new", c |-> 0, ver |-> V0],
+            MsgEv(0, [k |-> "CreateObject", serial |-> 0, uuid |-> 101]),
+            MsgEv(0, [k |-> "CreateService2", serial |-> 0, obj |-> 1, uuid |-> 201, val |-> 1, info |-> InfoRec(TRUE, 1, 0, "true")]),
+            [t |-> "new", c |-> 1, ver |-> V1] >>
+    [] ScriptSel = "chan" ->     \* connection 0 created a channel (cookie 1) with a claimed sender; connection 1 exists
+         << [t |-> "new", c |-> 0, ver |-> V0],
+            [t |-> "new", c |-> 1, ver |-> V1],
+            MsgEv(0, [k |-> "CreateChannel", serial |-> 0, end |-> "Sender", cap |-> CapZero]) >>
+    [] ScriptSel = "lst" ->      \* connection 0 owns a listener (cookie 1); connection 1 exists
+         << [t |-> "new", c |-> 0, ver |-> V0],
+            [t |-> "new", c |-> 1, ver |-> V1],
+            MsgEv(0, [k |-> "CreateBusListener", serial |-> 0]) >>
+    [] OTHER -> << >>
+ScriptConns == {Script[i].c : i \in {i \in 1..Len(Script) : Script[i].t = "new"}}
 NoRec == [t |-> "none"]
 
 Init ==
   /\ bk = BrokerInit /\ inq = <<>> /\ pc = "idle" /\ rec = NoRec /\ nextCookie = 1 /\ ctype = EmptyFn
-  /\ env = [started |-> {}, ended |-> {}, dropped |-> {}, sent |-> 0]
+  /\ env = [started |-> {}, ended |-> {}, dropped |-> {}, sent |-> 0, phase |-> 1]
   /\ obs = O!ObsInit
 
 \* ---------------------------------------------------------------------------------------------
@@ -105,9 +128,19 @@ CreateType(kind) == CASE kind = "CreateObject" -> "obj" [] kind \in {"CreateServ
 \* environment
 Sending(c) == c \in env.started /\ c \notin env.ended /\ c \notin env.dropped
 Room == Len(inq) < InqBound /\ pc # "stopped"
+Scripted == env.phase <= Len(Script)
+Free == ~Scripted
+
+EnvScript ==
+  /\ Scripted /\ Room
+  /\ LET ev == Script[env.phase] IN
+     /\ inq' = Append(inq, ev)
+     /\ bk' = IF ev.t = "new" THEN [bk EXCEPT !.alive = @ \cup {ev.c}] ELSE bk
+     /\ env' = [env EXCEPT !.phase = @ + 1, !.started = IF ev.t = "new" THEN @ \cup {ev.c} ELSE @]
+  /\ UNCHANGED <<pc, rec, nextCookie, ctype, obs>>
 
 EnvConnect ==
-  /\ Room /\ Conns \ env.started # {}
+  /\ Free /\ Room /\ Conns \ env.started # {}
   /\ LET c == CHOOSE x \in Conns \ env.started : \A y \in Conns \ env.started : x <= y IN
      \E v \in Versions :
        /\ inq' = Append(inq, [t |-> "new", c |-> c, ver |-> v])
@@ -116,7 +149,7 @@ EnvConnect ==
   /\ UNCHANGED <<pc, rec, nextCookie, ctype, obs>>
 
 EnvMsg ==
-  /\ Room /\ env.sent < MsgBudget
+  /\ Free /\ Room /\ env.sent < MsgBudget
   /\ \E c \in Conns : Sending(c) /\ \E kind \in Kinds \cup WrongKinds :
        /\ (CreateType(kind) # "" => nextCookie <= MaxCookie)
        /\ \E m \in Gen(kind) : inq' = Append(inq, [t |-> "msg", c |-> c, m |-> m])
@@ -124,12 +157,12 @@ EnvMsg ==
   /\ UNCHANGED <<bk, pc, rec, nextCookie, ctype, obs>>
 
 EnvConnEnds ==
-  /\ Room /\ "ends" \in Faults
+  /\ Free /\ Room /\ "ends" \in Faults
   /\ \E c \in Conns : Sending(c) /\ inq' = Append(inq, [t |-> "shut", c |-> c]) /\ env' = [env EXCEPT !.ended = @ \cup {c}]
   /\ UNCHANGED <<bk, pc, rec, nextCookie, ctype, obs>>
 
 EnvTaskDropped ==
-  /\ "dropped" \in Faults /\ pc # "stopped"
+  /\ Free /\ "dropped" \in Faults /\ pc # "stopped"
   /\ \E c \in Conns : c \in env.started /\ c \notin env.dropped
        /\ bk' = [bk EXCEPT !.alive = @ \ {c}]
        /\ env' = [env EXCEPT !.dropped = @ \cup {c}]
@@ -137,7 +170,7 @@ EnvTaskDropped ==
   /\ UNCHANGED <<inq, pc, rec, nextCookie, ctype>>
 
 EnvHandle ==
-  /\ Room
+  /\ Free /\ Room
   /\ \/ "sdb" \in Faults /\ ~bk.shutdownNow /\ (\A i \in 1..Len(inq) : inq[i].t # "sdb") /\ inq' = Append(inq, [t |-> "sdb"])
      \/ "sdi" \in Faults /\ ~bk.shutdownIdle /\ (\A i \in 1..Len(inq) : inq[i].t # "sdi") /\ inq' = Append(inq, [t |-> "sdi"])
      \/ "sdc" \in Faults /\ \E c \in env.started : c \in DOMAIN bk.conns /\ inq' = Append(inq, [t |-> "sdc", c |-> c])
@@ -189,7 +222,7 @@ Stop ==
   /\ obs' = O!ObsStep(obs, rec')
   /\ UNCHANGED <<bk, inq, nextCookie, ctype, env>>
 
-Next == EnvConnect \/ EnvMsg \/ EnvConnEnds \/ EnvTaskDropped \/ EnvHandle \/ Dequeue \/ Work \/ Idle \/ Stop
+Next == EnvScript \/ EnvConnect \/ EnvMsg \/ EnvConnEnds \/ EnvTaskDropped \/ EnvHandle \/ Dequeue \/ Work \/ Idle \/ Stop
 Spec == Init /\ [][Next]_vars
 
 \* ---------------------------------------------------------------------------------------------
